@@ -247,6 +247,38 @@ func (g *G) perturb(n M) (M, string) {
 	}
 	f := NodeAttrs[k]
 	old := attrs[f.GoName]
+	// a change deep inside a nested value: the innermost contact of a person, a hash of a reference
+	if (f.Kind == "persons" || f.Kind == "refs") && len(asList(old)) > 0 && g.Chance(0.35) {
+		l := Normalize(old).([]any)
+		e := l[g.Int(len(l))].(M)
+		if f.Kind == "persons" {
+			cur := e
+			depth := 0
+			for {
+				cs := asList(cur["c"])
+				if len(cs) == 0 {
+					break
+				}
+				cur = cs[g.Int(len(cs))].(M)
+				depth++
+			}
+			if depth == 0 && g.Chance(0.5) {
+				// grow a chain of contacts two levels down, different only at the bottom
+				cur["c"] = []any{M{"n": "mid", "o": false, "c": []any{M{"n": "leaf", "o": false}}}}
+				cur = asList(asList(cur["c"])[0].(M)["c"])[0].(M)
+			}
+			cur["p"] = asStr(cur["p"]) + "7"
+		} else {
+			mm := pairsToMap(e["h"])
+			mm[int32(1+g.Int(3))] = g.Pick([]string{"deep1", "deep2"})
+			e["h"] = mapToPairs(mm)
+		}
+		cand := Normalize(M{"v": l}).(M)["v"]
+		if !attrEqual(f, old, cand) {
+			attrs[f.GoName] = cand
+			return c, f.GoName
+		}
+	}
 	for try := 0; try < 20; try++ {
 		var nv any
 		switch g.Int(6) {
@@ -342,6 +374,36 @@ func eqGen(g *G, tier string) []M {
 		case 0:
 			ops = append(ops, M{"op": "flatNode", "n": base})
 		case 1:
+			if g.Chance(0.2) {
+				// a difference two or three levels down in a supplier's or originator's contacts
+				leaf := M{"n": "leaf", "o": false, "p": "1"}
+				chain := M{"n": g.Pick([]string{"ACME", "Bob"}), "o": true, "c": []any{M{"n": "mid", "o": false, "c": []any{leaf}}}}
+				if g.Chance(0.5) {
+					chain = M{"n": "top", "o": true, "c": []any{chain}}
+				}
+				at, _ := base["a"].(M)
+				if at == nil {
+					at = M{}
+					base["a"] = at
+				}
+				fld := g.Pick([]string{"Suppliers", "Originators"})
+				at[fld] = []any{chain}
+				other := Normalize(base).(M)
+				cur := asList(other["a"].(M)[fld])[0].(M)
+				for len(asList(cur["c"])) > 0 {
+					cur = asList(cur["c"])[0].(M)
+				}
+				switch g.Int(3) {
+				case 0:
+					cur["p"] = "2"
+				case 1:
+					cur["e"] = "x@y"
+				default:
+					cur["n"] = "leaf2"
+				}
+				ops = append(ops, M{"op": "equalNode", "n": base, "m": other, "kind": "perturbed"})
+				break
+			}
 			p, _ := g.perturb(base)
 			ops = append(ops, M{"op": "equalNode", "n": base, "m": p, "kind": "perturbed"})
 		case 2:
@@ -842,7 +904,49 @@ func diffGen(g *G, tier string) []M {
 	for i := 0; i < n; i++ {
 		base := g.Node(g.Pick(idPoolAll), []float64{0.1, 0.3, 0.6, 0.9}[g.Int(4)])
 		var other M
-		switch g.Int(5) {
+		switch g.Int(7) {
+		case 5:
+			// dates less than a second apart but in different seconds, and in the same second
+			other = Normalize(base).(M)
+			attrs, battrs := other["a"].(M), base["a"].(M)
+			for _, f := range NodeAttrs {
+				if f.Kind != "date" || !g.Chance(0.7) {
+					continue
+				}
+				sec := float64(1700000000 + g.Int(3))
+				switch g.Int(3) {
+				case 0:
+					battrs[f.GoName] = []any{sec, 900000000.0}
+					attrs[f.GoName] = []any{sec + 1, 100000000.0}
+				case 1:
+					battrs[f.GoName] = []any{sec + 1, 0.0}
+					attrs[f.GoName] = []any{sec, 999999999.0}
+				default:
+					battrs[f.GoName] = []any{sec, 100000000.0}
+					attrs[f.GoName] = []any{sec, 900000000.0}
+				}
+			}
+		case 6:
+			// an element of a list replaced by a second copy of another element
+			other = Normalize(base).(M)
+			attrs := other["a"].(M)
+			for _, f := range NodeAttrs {
+				if !(f.Kind == "persons" || f.Kind == "refs" || f.Kind == "strs" || f.Kind == "enums") {
+					continue
+				}
+				l := asList(attrs[f.GoName])
+				if len(l) >= 2 {
+					nl := append([]any{}, l...)
+					i, j := g.Int(len(nl)), g.Int(len(nl))
+					if i != j {
+						nl[j] = nl[i]
+						attrs[f.GoName] = nl
+					}
+				}
+			}
+			if g.Chance(0.5) {
+				base, other = other, base
+			}
 		case 0:
 			other = g.permuteNode(base)
 		case 1:
